@@ -161,6 +161,20 @@ pub fn c_store(pe: &anysystem::mc::verif::PendingEvents) -> String {
     s.trim().split('\n').collect::<Vec<_>>().join("/")
 }
 
+/// what the model of the code and the reference semantics both have: live, offered (both modes), counter, name map
+pub fn c_store_red(pe: &anysystem::mc::verif::PendingEvents) -> String {
+    let mut s = String::new();
+    crate::store::dump_store(&mut s, pe);
+    let keep: Vec<&str> = s
+        .trim()
+        .split('\n')
+        .filter(|l| {
+            l.starts_with("LIVE") || l.starts_with("OFF") || l.starts_with("NEXT") || l.starts_with("TMAP")
+        })
+        .collect();
+    keep.join("/")
+}
+
 pub fn c_net(n: &anysystem::mc::verif::VerifNetDump) -> String {
     format!(
         "c{} d{} r{} in[{}] out[{}] links[{}] loc[{}] max{}",
@@ -196,6 +210,29 @@ pub fn c_nodes(s: &McState) -> String {
 
 pub fn c_state_core(s: &McState) -> String {
     format!("D{}{}|S{}|W{}", s.depth, c_nodes(s), c_store(&s.events), c_net(&s.network.verif_dump()))
+}
+
+pub fn c_state_red(s: &McState) -> String {
+    format!("D{}{}|S{}|W{}", s.depth, c_nodes(s), c_store_red(&s.events), c_net(&s.network.verif_dump()))
+}
+
+/// the projection the checker's state equality looks at
+pub fn c_state_eqp(s: &McState) -> String {
+    let mut out = String::new();
+    for (name, ns) in &s.node_states {
+        out.push_str(&format!("|N{} c{} ", num(name), b01(ns.verif_is_crashed())));
+        for (pn, pe) in &ns.proc_states {
+            let st = script_state(&pe.proc_state);
+            out.push_str(&format!(
+                "{{P{} i{} h[{}] o[{}]}}",
+                num(pn),
+                st.idx,
+                st.hist.iter().map(c_hentry).collect::<Vec<_>>().join(""),
+                pe.local_outbox.iter().map(c_msg).collect::<Vec<_>>().join(";")
+            ));
+        }
+    }
+    format!("{}|S{}", out, c_store_red(&s.events))
 }
 
 pub fn c_state(s: &McState) -> String {
